@@ -38,7 +38,11 @@ func optsFor(prop string, src *choice.Src) gen.Opts {
 	case "C15":
 		return gen.Opts{Runnable: true, MaxParams: 5, MaxSvcs: 4, MaxDecs: 0, SimpleVals: true, NoScopes: true, OnlyPtr: true, Plain: true}
 	case "C20":
-		return gen.Opts{Runnable: true, MaxParams: 4, MaxSvcs: 6, MaxDecs: 2, NoTodo: true, OnlyPtr: true, LegalOnly: true}
+		// a quarter of the configurations may contain todo placeholders with a declared scope, and need not be
+		// scope-legal: those are judged on the tool's verdict only (a tool that wrongly accepts one hands out
+		// shared instances holding another context's objects)
+		verdictOnly := src.Chance("c20.verdictonly", 1, 4)
+		return gen.Opts{Runnable: true, MaxParams: 4, MaxSvcs: 6, MaxDecs: 2, NoTodo: !verdictOnly, TodoScoped: true, NoTodoParams: true, OnlyPtr: true, LegalOnly: !verdictOnly}
 	}
 	legal := src.Chance("legalonly", 1, 2)
 	// todo placeholders with a declared scope take part in the legality rule; configurations that
@@ -307,7 +311,7 @@ func GenBatch(t Target, prop string, seed uint64, n int, outdir string, nenum in
 			cfg.Services[0].Args = append(cfg.Services[0].Args, gen.Arg{Kind: "svc", S: "aaa.undefined"})
 			danglingFlag = true
 		}
-		if prop == "C05" && i < n && len(cfg.Services) > 0 && src.Chance("c05.dangling", 1, 4) {
+		if (prop == "C05" || prop == "C20") && i < n && len(cfg.Services) > 0 && src.Chance("c05.dangling", 1, 4) {
 			// a reference to an undefined service, tolerated by --ignore-missing-services, must not
 			// change the scope verdict (such a configuration cannot be instantiated: verdict only)
 			undef := choice.Pick(src, "c05.undef", []string{"aaa.undefined", "m.undefined", "zzz.undefined"})
